@@ -130,6 +130,7 @@ class Interp:
         local_bindings: Optional[Dict[str, Any]] = None,
         auto_inline: bool = True,
         fork_while: bool = False,
+        concrete_while: bool = False,
     ):
         self.mod = mod
         self.consts = dict(mod.consts)
@@ -152,8 +153,10 @@ class Interp:
         # refactoring extracted is analysed as if its body were still in place (same depth, same loop context)
         self.auto_inline = auto_inline
         self.fork_while = fork_while
+        self.concrete_while = concrete_while   # a while loop whose test folds to a constant is executed iteration by iteration
         self.inline_stack: List[int] = []
         self.yield_hooks: List[Any] = []
+        self.lambdas: Dict[str, Any] = {}
         self.cur_class: Optional[str] = None
         self.fresh_count: Dict[Sym, int] = {}
         # per-run state
@@ -333,6 +336,8 @@ class Interp:
                 d0 = self.defdepth[-1].get(st.target.id, 0)
                 acc = rhs
                 for it in reversed(self.loops[d0:]):
+                    if isinstance(it, tuple) and it and it[0] == "while!":
+                        continue        # concretely executed iterations add up by themselves
                     acc = ("acc", it, acc)
                 self.bind(st.target.id, simplify(OP(op, old, acc)), aug=True)
             else:
@@ -360,7 +365,7 @@ class Interp:
                 return
             self.emit("loop", it, st)
             roles = self.loop_roles(it, self.depth) if self.loop_roles else None
-            elem = ("elem", it)
+            elem = _elem_of(it)
             if roles is not None and isinstance(st.target, (ast.Tuple, ast.List)) and len(roles) == len(st.target.elts):
                 for t, r in zip(st.target.elts, roles):
                     self._assign(t, r, st, quiet=True)
@@ -391,6 +396,32 @@ class Interp:
             return
         if isinstance(st, ast.While):
             t = self._ev(st.test)
+            if self.concrete_while and simplify(t)[0] == "c":
+                self.emit("loop", ("while!", t), st)
+                self.loops.append(("while!", t))
+                try:
+                    k = 0
+                    while True:
+                        c = simplify(self._ev(st.test))
+                        if c[0] != "c":
+                            raise AnalysisError(f"while test at {self.mod.rel}:{st.lineno} stops folding after {k} iterations")
+                        if not c[1]:
+                            break
+                        k += 1
+                        if k > 64:
+                            raise AnalysisError(f"while loop at {self.mod.rel}:{st.lineno} does not terminate within 64 concrete iterations")
+                        try:
+                            self._block(st.body)
+                        except _Continue:
+                            self.emit("continue", None, st)
+                        except _Break:
+                            self.emit("break", None, st)
+                            return
+                finally:
+                    self.loops.pop()
+                    self.emit("endloop", ("while!", t), st)
+                self._block(st.orelse)
+                return
             if self.fork_while and simplify(t)[0] != "c":
                 # the loop may not be entered at all (its test decides, like an `if`)
                 if not self.truth_sym(t):
@@ -455,10 +486,10 @@ class Interp:
             return False
         f = it[1]
         fn = None
-        if f[0] == "n" and f[1].startswith("_") and self.mod.has(f[1]):
+        if f[0] == "n" and self.mod.has(f[1]):
             cands = [x for x in self.mod.defs[f[1]] if isinstance(x, ast.FunctionDef)]
             fn = cands[0] if len(cands) == 1 else None
-        elif f[0] == "a" and f[1] in (N("self"), N("cls")) and f[2].startswith("_") and self.cur_class and self.mod.has(f"{self.cur_class}.{f[2]}"):
+        elif f[0] == "a" and f[1] in (N("self"), N("cls")) and self.cur_class and self.mod.has(f"{self.cur_class}.{f[2]}"):
             cands = [x for x in self.mod.defs[f"{self.cur_class}.{f[2]}"] if isinstance(x, ast.FunctionDef)]
             fn = cands[0] if len(cands) == 1 else None
         if fn is None or id(fn) in self.inline_stack or len(self.inline_stack) >= self.max_depth:
@@ -796,7 +827,16 @@ class _EvalBuilder(_Builder):
     def _comp(self, n: ast.AST) -> Sym:
         i = self.i
         if isinstance(n, ast.Lambda):
-            return ("opaque", ast.unparse(n))
+            text = ast.unparse(n)
+            snap = dict(i.frames[-1]) if i.frames else {}
+            prev = i.lambdas.get(text)
+            if prev is None and text not in i.lambdas:
+                i.lambdas[text] = (n, snap)
+            elif prev is not None and prev[0] is not n:
+                i.lambdas[text] = None      # two different lambdas with the same text: never applied
+            elif prev is not None:
+                i.lambdas[text] = (n, snap)
+            return ("opaque", text)
         # comprehension: evaluate element with generator targets bound to elem(iter)
         gens = n.generators  # type: ignore[attr-defined]
         frame = i.frames[-1] if i.frames else {}
@@ -807,7 +847,7 @@ class _EvalBuilder(_Builder):
                 it = self.ev(g.iter)
                 its.append(it)
                 if i.frames:
-                    i._assign(g.target, ("elem", it), n, quiet=True)
+                    i._assign(g.target, _elem_of(it), n, quiet=True)
                 conds = [self.ev(c) for c in g.ifs]
             if isinstance(n, ast.DictComp):
                 el: Sym = ("tuple", (self.ev(n.key), self.ev(n.value)))
@@ -888,8 +928,40 @@ class _EvalBuilder(_Builder):
             out.append(r[1])
         return C(tuple(out))
 
+    def _apply_lambda(self, s: Sym) -> Optional[Sym]:
+        """application of a lambda that was created on this path: its body evaluated with the parameters bound, in the
+        bindings the lambda closed over"""
+        i = self.i
+        ent = i.lambdas.get(s[1][1])
+        if not ent or not i.frames or self.pure:
+            return None
+        node, snap = ent
+        a = node.args
+        if a.vararg or a.kwarg or a.kwonlyargs or s[3] or any(x[0] == "star" for x in s[2]):
+            return None
+        params = [p.arg for p in a.posonlyargs + a.args]
+        if len(s[2]) > len(params) or len(s[2]) < len(params) - len(a.defaults):
+            return None
+        frame = dict(snap)
+        defaults = [None] * (len(params) - len(a.defaults)) + list(a.defaults)
+        for k, (p, d) in enumerate(zip(params, defaults)):
+            frame[p] = s[2][k] if k < len(s[2]) else i._const_default(d)
+        if len(i.inline_stack) >= i.max_depth + 2:
+            return None
+        i.frames.append(frame)
+        i.defdepth.append({k: len(i.loops) for k in frame})
+        i.inline_stack.append(id(node))
+        try:
+            return self.ev(node.body)
+        finally:
+            i.inline_stack.pop()
+            i.frames.pop()
+            i.defdepth.pop()
+
     def _maybe_inline(self, s: Sym, n: ast.Call) -> Optional[Sym]:
         i = self.i
+        if s[1][0] == "opaque" and i.auto_inline:
+            return self._apply_lambda(s)
         name = dotted(s[1])
         tgt = i.inline.get(name)
         transparent = False
@@ -949,10 +1021,10 @@ class _EvalBuilder(_Builder):
             return None
         fn = None
         f = s[1]
-        if f[0] == "n" and f[1].startswith("_") and not f[1].startswith("__") and i.mod.has(f[1]):
+        if f[0] == "n" and not f[1].startswith("__") and i.mod.has(f[1]):
             cands = [x for x in i.mod.defs[f[1]] if isinstance(x, ast.FunctionDef)]
             fn = cands[0] if len(cands) == 1 else None
-        elif f[0] == "a" and f[1] in (N("self"), N("cls")) and f[2].startswith("_") and not (f[2].startswith("__") and f[2].endswith("__")) and i.cur_class:
+        elif f[0] == "a" and f[1] in (N("self"), N("cls")) and not (f[2].startswith("__") and f[2].endswith("__")) and i.cur_class:
             q = f"{i.cur_class}.{f[2]}"
             if i.mod.has(q):
                 cands = [x for x in i.mod.defs[q] if isinstance(x, ast.FunctionDef)]
@@ -978,6 +1050,13 @@ class _EvalBuilder(_Builder):
         if fn.args.vararg or fn.args.kwarg:
             return None
         return (i.mod, fn)
+
+
+def _elem_of(it: Sym) -> Sym:
+    """the element of an iterable; that of an unfiltered generator expression / list comprehension is its element term"""
+    if it[0] == "call" and it[1] in (N("$genexp"), N("$listcomp")) and not it[3] and len(it[2]) == 2:
+        return it[2][0]
+    return ("elem", it)
 
 
 _KNOWN_UNITS: Optional[Dict[str, Any]] = None
